@@ -63,6 +63,133 @@ def overlapping_exchanges(ctx, seen_jti):
     return stats
 
 
+HIST_WINDOW = 16   # bytes: two values that share a window of this length were not drawn independently (chance 2^-128 per pair)
+
+
+def _raw_bytes(kind, val):
+    """the random bytes behind a visible value: the data key is reported as hex of the raw key, everything else is base64url"""
+    try:
+        if kind == "data_key":
+            return binascii.unhexlify(val)
+        return base64.urlsafe_b64decode(val + "=" * (-len(val) % 4))
+    except Exception:
+        return b""
+
+
+def _compress_history(tokens):
+    """run-length form of a list of operations: repeated blocks of up to three operations are folded"""
+    out, i = [], 0
+    while i < len(tokens):
+        bl, bn = 1, 1
+        for L in (1, 2, 3):
+            blk = tokens[i:i + L]
+            if len(blk) < L:
+                break
+            n = 1
+            while tokens[i + n * L:i + (n + 1) * L] == blk:
+                n += 1
+            if n > 1 and n * L > bl * bn:
+                bl, bn = L, n
+        blk = tokens[i:i + bl]
+        out.append("%d x [%s]" % (bn, ", ".join(blk)) if bn > 1 else blk[0])
+        i += bl * bn
+    return out
+
+
+def long_mixed_histories(ctx, seen_atoms):
+    """'a state and a nonce that are new, unpredictable (at least 256 bits) and never reused across attempts', over the lifetime of
+    ONE process: several thousand operations through several deployments without any reset in between - logins (plain, PAR, private
+    key; succeeding and failing), complete callbacks with and without a provider session id, refused callbacks, logouts with and
+    without a session, logout callbacks, front-channel and local logouts - in aligned bursts (k single draws, then n double-length
+    draws, k = 0..5) and in seeded random order. EVERY generated value that became visible anywhere (authorization request / PAR body,
+    login and logout cookie opened with the deployment key, store key and ticket of a generated session id, the ticket's data key) is
+    taken from the observations. Required: each carries at least 32 bytes that look random; all are pairwise distinct, whatever their
+    kind; and no value shares a window of 16 bytes with an earlier value at ANY offset (a value cut out of bytes that were handed out
+    before, shifted or concatenated, is neither new nor unpredictable). The login cookie / logout cookie seal this attempt's values."""
+    obs, ins, impl = _auth.run_auth(ctx, "history")
+    tokens = []                 # the history: one short description per operation
+    values = []                 # (op index, kind, value, raw, where)
+    by_raw = {}                 # raw bytes -> index into values (first occurrence)
+    windows = {}                # 16-byte window -> (index into values, offset)
+    request_uris = {}
+    per_kind, per_what = {}, {}
+    deployments = []
+
+    def replay_case(o, kind, val, where, earlier, extra):
+        i = o["op"]
+        hist = _compress_history(tokens[:i + 1])
+        omitted = 0
+        if len(hist) > 300:
+            omitted, hist = len(hist) - 300, hist[-300:]
+        case = {"operation_index": i, "operation": o["what"], "deployment": o.get("deployment"), "configuration": o.get("cfg"),
+                "value": {"kind": kind, "value": val, "seen_in": where},
+                "history_of_the_process_up_to_this_operation": hist,
+                "history_entries_omitted_at_the_start": omitted,
+                "how_to_rerun": "build/wwh auth -mode history -seed %d -tier %s -out <prefix>  (one process; the operations are lines 0..%d of <prefix>.in / .obs)" % (ctx.seed, ctx.tier, i)}
+        if earlier is not None:
+            eo, ek, ev, _, ew = values[earlier]
+            case["earlier_value"] = {"kind": ek, "value": ev, "seen_in": ew, "operation_index": eo, "operation": tokens[eo],
+                                     "deployment": obs[eo].get("deployment")}
+            case["operations_in_between"] = _compress_history(tokens[eo:i + 1])[:120]
+        case.update(extra)
+        return case
+
+    for o in obs:
+        tokens.append(o["what"])
+        per_what[o["what"]] = per_what.get(o["what"], 0) + 1
+        if o.get("deployment") and o["deployment"] not in deployments:
+            deployments.append(o["deployment"])
+        if o.get("binding"):
+            ctx.violation("c13-cookie-binding", o["binding"], replay_case(o, "-", "-", [], None, {}))
+        for b in [o.get("location", "")]:
+            if o.get("secret") and o["secret"] in b or "client_assertion" in b or "client_secret" in b:
+                ctx.violation("c13-credential-param-in-front-channel", "client credential in a browser-visible redirect", replay_case(o, "-", "-", [], None, {"location": b}))
+        for v in o.get("values", []):
+            kind, val, where = v["kind"], v["value"], v.get("where", [])
+            per_kind[kind] = per_kind.get(kind, 0) + 1
+            if kind == "request_uri":
+                # issued by the provider for ONE pushed request: the browser must never be sent off with the reference of another attempt
+                # (each deployment of the history has its own provider instance, which numbers its references from 1)
+                rk = (o["segment"], val)
+                if rk in request_uris:
+                    ctx.violation("c13-request-uri-reused", "the browser was sent to the provider with the request_uri of an earlier attempt (operation %d)" % request_uris[rk],
+                                  replay_case(o, kind, val, where, None, {"earlier_operation_index": request_uris[rk]}))
+                request_uris.setdefault(rk, o["op"])
+                continue
+            raw = _raw_bytes(kind, val)
+            if len(raw) < 32 or len(set(raw)) < 12:
+                ctx.violation("c13-short-random", "%s carries fewer than 256 bits of random-looking data (%d bytes, %d distinct byte values)" % (kind, len(raw), len(set(raw))),
+                              replay_case(o, kind, val, where, None, {}))
+            idx = len(values)
+            values.append((o["op"], kind, val, raw, where))
+            if val in seen_atoms:
+                ctx.violation("c13-value-reused", "%s value was handed out before by another process (as %s)" % (kind, seen_atoms[val]), replay_case(o, kind, val, where, None, {}))
+            if raw and raw in by_raw:
+                e = by_raw[raw]
+                ctx.violation("c13-value-reused",
+                              "%s of operation %d (%s) is a value that was handed out before: the %s of operation %d (%s)" % (kind, o["op"], o["what"], values[e][1], values[e][0], tokens[values[e][0]]),
+                              replay_case(o, kind, val, where, e, {}))
+                continue
+            by_raw.setdefault(raw, idx)
+            reported = False
+            for off in range(0, len(raw) - HIST_WINDOW + 1):
+                w = raw[off:off + HIST_WINDOW]
+                hit = windows.get(w)
+                if hit is not None and not reported and hit != (idx, off):
+                    e, eoff = hit
+                    reported = True
+                    ctx.violation("c13-value-shares-bytes-with-earlier-value",
+                                  "%s of operation %d (%s) contains, at byte offset %d, %d bytes that were handed out before: offset %d of the %s of operation %d (%s)"
+                                  % (kind, o["op"], o["what"], off, HIST_WINDOW, eoff, values[e][1], values[e][0], tokens[values[e][0]]),
+                                  replay_case(o, kind, val, where, e, {"shared_bytes_hex": w.hex(), "offset_in_this_value": off, "offset_in_earlier_value": eoff,
+                                                                       "this_value_bytes_hex": raw.hex(), "earlier_value_bytes_hex": values[e][3].hex()}))
+                windows.setdefault(w, (idx, off))
+    ctx.nontrivial += len(values)
+    return {"operations_in_one_process": len(obs), "deployments_without_reset": deployments, "operations_by_kind": dict(sorted(per_what.items())),
+            "generated_values_collected": dict(sorted(per_kind.items())), "distinct_values": len(by_raw), "byte_windows_indexed": len(windows),
+            "window_bytes": HIST_WINDOW}
+
+
 def run(ctx):
     obs, ins, impl = _auth.run_auth(ctx, "login")
     seen_atoms = {}
@@ -182,8 +309,10 @@ def run(ctx):
                 ctx.violation("c13-par-leaks-parameters", "with PAR the browser URL carries more than client_id and request_uri",
                               dict(case, keys=sorted(keys), par_mode=o.get("par_mode"), par_replies=o.get("par_replies")))
     pairs = overlapping_exchanges(ctx, seen_jti)
+    histories = long_mixed_histories(ctx, seen_atoms)
     ctx.nontrivial += len(distinct)
     ctx.extra["overlapping_back_channel_exchanges"] = pairs
+    ctx.extra["long_mixed_histories_of_one_process"] = histories
     ctx.extra["input_distribution"] = {"requests": len(obs), "redirected_to_provider": n302, "distinct_random_values": len(seen_atoms),
                                        "client_assertions_verified": len(seen_jti),
                                        "par_retries_re_sending_the_same_assertion": reposts,
@@ -195,9 +324,16 @@ def run(ctx):
                 "distinct_nontrivial = distinct (request, configuration) pairs; "
                 "private-key client authentication: ordered pairs of back-channel exchanges {PAR login, code redemption, refresh grant} x the same set, the second "
                 "run to completion at every accessor call of the first (configuration accessors and the client key's Algorithm / KeyID / Raw): every client assertion "
-                "received by the provider verified, jti pairwise distinct over the whole run")
+                "received by the provider verified, jti pairwise distinct over the whole run; "
+                "histories of ONE process (no reset between deployments): aligned bursts (n started logins, k = 0..5 logouts, n completions without a provider session id) "
+                "and seeded random mixes of login {plain, PAR, private key, no matching ingress, PAR endpoint 4xx / 5xx once / undecodable / refused}, callback {provider session id, "
+                "generated session id, wrong state, no cookie, token endpoint 4xx, replayed login cookie}, logout {live session, none}, logout callback, front-channel logout, "
+                "local logout: every visible generated value (nonce, state, verifier, logout state, generated session id, data key) >= 32 random-looking bytes, pairwise "
+                "distinct, and sharing no 16-byte window with any earlier value at any offset")
     ctx.assumptions += ["crypto/rand yields unpredictable bytes (the theorem shows the values are fresh draws used nowhere else; entropy is assumed)",
                         "S256 is modelled as an injective symbol", "provider = the harness's fake provider",
                         "'a signed assertion that is unique per request' is read per HTTP request: every POST to the PAR / token endpoint, retries included, must carry a new jti",
+                        "history mode: a value is named by identity (the number of the draw that first produced it); the positions of draws nobody sees (a login whose PAR "
+                        "request never reached the provider, the jti of a client assertion) are mirrored from the configuration",
                         "the generator counter after a failed login is not observable; model and implementation are compared on status, browser parameters, "
                         "back-channel posts and cookie there"]
